@@ -36,7 +36,7 @@ def run_stream(ctx, st, want=('C02', 'C03', 'C04'), extra_case=None, session_kwa
             probs.append((prop, kind, msg, idx))
 
     for kind, msg in contracts.drain():
-        P('C03' if kind in ('resurrection', 'inv-two-alive', 'inv-alive-not-last') else ('C04' if kind.startswith('inv-conn') or kind.startswith('inv-open') or kind.startswith('inv-listed') else 'C02'), kind, msg)
+        P('C03' if kind in ('resurrection', 'inv-two-alive', 'inv-alive-not-last') else ('C04' if kind.startswith('inv-conn') or kind.startswith('inv-open') or kind.startswith('inv-listed') else ('C06' if kind == 'inv-controller-record' else 'C02')), kind, msg)
 
     created_t = streams.stream_created_times(st)
     per = s.per_read()
